@@ -209,6 +209,9 @@ func t1Caller(p *Prog, o *obls, fn *ssa.Function, get *ssa.Call, spec refcountSp
 				}
 				continue
 			}
+			if m&1 != 0 && p.nilnessAt(get, b) == -1 {
+				m &^= 1 // this return lies on the branch where the accessor returned nil: nothing to release
+			}
 			if m&1 != 0 {
 				problems = append(problems, fmt.Sprintf("leak: the return at %s can be reached with the non-nil packet not released (the pooled buffer is never handed back)", p.instrPos(last)))
 			}
